@@ -20,6 +20,7 @@ names the reason.  A panic is compared with the model's error (`agree`);
 -/
 import DropshotModel.Proto
 import DropshotModel.SchemaJson
+import DropshotModel.RefSiblings
 
 open Dropshot Dropshot.Proto Dropshot.Schema
 
@@ -387,11 +388,15 @@ def handle (line : String) : String :=
     -- this type, expanded through the document's components, is the conversion of the type's own
     -- schema expanded through its own definitions (the conversion itself is what `dt` compares
     -- with the model)
-    out id (impl == ["1"]) (b2s (impl == ["1"])) s!"da-{if tname.endsWith "Item" then "same-name" else "family"}" "-" "1"
+    out id (impl == ["1"]) (b2s (impl == ["1"])) s!"da-{if tname.endsWith "Item" then "same-name" else if tname.startsWith "param_" then "parameter" else if tname.startsWith "header_" then "header" else "family"}" "-" "1"
   | [stream, id, nameH, schemaH] =>
-    if stream != "rs" && stream != "us" then bad id "unknown-stream" else
+    if stream != "rs" && stream != "us" && stream != "rv" then bad id "unknown-stream" else
     match decodeName nameH, decodeSchema schemaH, impl with
     | some name, some s, [r] =>
+      -- rv: the implementation converted the schema after schemars' RemoveRefSiblings visitor
+      -- (what every definition goes through before it is published); the model applies its
+      -- own `JS.rrs` first
+      let s := if stream == "rv" then s.rrs else s
       (match decodeRes r with
         | some res => handleOne stream id name s res
         | none => bad id "result")
